@@ -7,6 +7,8 @@ CONSTANTS
   MaxEmit = 3
   MaxSreq = 1
   MaxSa = 2
+  MaxBc = 0
+  DupOf <- NoDup
   Gates = TRUE
 CONSTRAINT Export
 CHECK_DEADLOCK FALSE
